@@ -489,6 +489,9 @@ REGRESSION = [
     ("abi_decode", "u", 0, "ifexp_const"), ("abi_decode", "tup", 0, "slice_res"), ("convert", "int128->uint256", 0, "ifexp_const"),
     ("uint2str", "u", 0, "ifexp_rt"), ("uint2str", "u8", 0, "ifexp_const"), ("abi_decode", "u", 0, "convert"), ("concat", "bb", 0, "empty"),
     ("uint2str", "u8", 0, "convert"), ("uint256_addmod", "", 2, "empty"), ("keccak256", "bytes", 0, "constant"), ("slice", "bytes", 0, "empty"),
+    # venom: ternary of a memory type as internal-call argument (pre-SSA invoke-arg copy forwarding followed one definition)
+    ("@internal_arg", "Bytes_64", 0, "ifexp_rt"), ("@internal_arg", "String_64", 0, "ifexp_const"), ("@internal_arg", "uint256_2", 0, "ifexp_args"),
+    ("@internal_arg", "DynArray_bytes32_4", 0, "ifexp_rt"), ("@internal_two_args", "Bytes_64", 1, "ifexp_args"),
 ]
 
 
